@@ -997,6 +997,7 @@ impl<'a> Gen<'a> {
         for _ in 0..n {
             self.statement();
         }
+        self.loop_tail_return();
         self.in_loop.pop();
         self.indent -= 1;
         self.pop_scope();
@@ -1024,6 +1025,7 @@ impl<'a> Gen<'a> {
         for _ in 0..n {
             self.statement();
         }
+        self.loop_tail_return();
         self.in_loop.pop();
         self.indent -= 1;
         self.pop_scope();
@@ -1056,11 +1058,47 @@ impl<'a> Gen<'a> {
         for _ in 0..n {
             self.statement();
         }
+        self.loop_tail_return();
         self.in_loop.pop();
         self.indent -= 1;
         self.pop_scope();
         self.line("end");
         self.used.insert("generic-for");
+    }
+
+    /// the tail of a loop body inside a function: a conditional exit from the loop followed by a `return`
+    /// (as the last statement of the body, or in a nested `do`): the statements AFTER the loop are reachable
+    /// although the body "ends with a return" (filter_after_early_return must not treat the loop as a stop)
+    fn loop_tail_return(&mut self) {
+        if self.fn_depth == 0 || !self.rng.chance(1, 4) {
+            return;
+        }
+        let c = self.expr(Ty::Bool, 1);
+        let kind = self.in_loop.last().copied();
+        if self.feat.luau && self.rng.chance(1, 3) && kind.is_some() {
+            self.line(&format!("if {} then continue end", c));
+            self.used.insert("continue");
+        } else {
+            self.line(&format!("if {} then break end", c));
+            self.used.insert("break");
+        }
+        if self.rng.chance(1, 2) {
+            self.emit_stmt();
+        }
+        let e = self.expr(Ty::Int, 1);
+        if self.rng.chance(1, 2) {
+            self.line(&format!("return {}", e));
+        } else {
+            self.line("do");
+            self.indent += 1;
+            self.line(&format!("return {}", e));
+            self.indent -= 1;
+            self.line("end");
+            if self.rng.chance(1, 2) {
+                self.line("emit('unreachable-in-loop')");
+            }
+        }
+        self.used.insert("return-in-loop");
     }
 
     fn repeat_stmt(&mut self) {
@@ -1081,6 +1119,7 @@ impl<'a> Gen<'a> {
         for _ in 0..n {
             self.statement();
         }
+        self.loop_tail_return();
         self.in_loop.pop();
         self.indent -= 1;
         self.pop_scope();
